@@ -30,12 +30,12 @@ def h_read(eng, st, args, site):
         v = z3.BitVecVal(script[k], 8)
     else:
         v = z3.BitVec("rd%d" % k, 8)
-    st.trace = st.trace + (("R", addr, v, st.ghost.get("cycle", 0)),)
+    st.trace = st.trace + (("R", addr, v, st.ghost.get("cycle", 0), str(args[0].obj)),)
     return [(st, v)]
 
 
 def h_write(eng, st, args, site):
-    st.trace = st.trace + (("W", args[1], args[2], st.ghost.get("cycle", 0)),)
+    st.trace = st.trace + (("W", args[1], args[2], st.ghost.get("cycle", 0), str(args[0].obj)),)
     return [(st, None)]
 
 
@@ -600,3 +600,129 @@ def haltbug_task(chunk, idx):
         lem.stats = dict(eng.stats)
         return lem
     return LemmaTask("haltbug[%d]" % idx, run, ["(*cpu.CPU).next (halt bug path)"])
+
+
+# ------------------------------------------------------------------ two instances (C25)
+def two_instance_lemma(ctx, eng, ce):
+    from engine.verify import frame_obligations
+    lem = Lem()
+    st = State()
+    ctx.seed_globals(st)
+    ov = {"CPU.currentMetadata": nil_ov}
+    eng.ev = ce
+    eng.modular = set()
+    eng.abstract = dict(eng.abstract)
+    eng.abstract.update({"(*memory.Mapper).Read": h_read, "(*memory.Mapper).Write": h_write,
+                         "(*oam.OAM).TriggerWriteCorruption": h_trigger, "(*oam.OAM).Corrupt": h_corrupt})
+    worlds = []
+    for k in (1, 2):
+        w = World(eng, st, ov)
+        cpu = w.component("cpu.CPU")
+        worlds.append((w, cpu))
+    init = ctx.prog.func(CPU + "Initialize").name
+    # both orders of construction are covered by symmetry of the two symbolic instances: instance 1 first
+    for (w, cpu) in worlds:
+        outs = eng.call_function(st, init, [cpu])
+        assert len(outs) == 1
+        st = outs[0][0]
+    bases = []
+    for (w, cpu) in worlds:
+        b = Base()
+        b.st, b.w, b.cpu = st, w, cpu
+        b.tid = ctx.prog.named["cpu.CPU"]
+        b.ints = w.component("interrupts.Interrupts")
+        set_field(eng, st, b, "currentCycle", z3.BitVecVal(0, 64))
+        set_field(eng, st, b, "debugCPU", z3.BoolVal(False))
+        bases.append(b)
+    eng.modular = {k for k, c in ce.contracts.items() if c.short.startswith("(*interrupts.Interrupts)") and c.assigns is not None}
+    eng.contracts = ce.contracts
+    lem.covers.append(("lemma:two-instances#cover", st.pcond()))
+    for who, other in ((0, 1), (1, 0)):
+        b, bo = bases[who], bases[other]
+        for (op, cb) in ((0x04, None), (0xC5, None), (0x3E, None), (0xCB, 0x11), (0xF3, None)):
+            b.st = st
+            out, pre_state, specs = instruction_lemma(ctx, eng, ce, b, op, cb)
+            tag = "step-instance-%d:%s" % (who + 1, opname(op, cb))
+            for asp in ("regs", "flags", "mem", "frame", "flow"):
+                items = out[asp]
+                viol = z3.Or(*[v for v, _ in items]) if items else z3.BoolVal(False)
+                ob = lem.add("lemma:%s:solo-behaviour:%s" % (tag, asp), viol, info={"replay": two_replay})
+                if concrete_bool(viol) is False:
+                    ob.trivial = True
+            # ownership frame: nothing owned by the other instance changes, every bus access goes to the own mapper
+            own_mapper = str(b.w.component("memory.Mapper").obj)
+            for (s, n) in out["_finals"]:
+                wrong = [e for e in bus_events(s.trace) if e[4] != own_mapper]
+                ob = lem.add("lemma:%s:bus-goes-to-own-mapper" % tag, z3.And(s.pcond(), z3.BoolVal(bool(wrong))), info={"replay": two_replay})
+                eng.obligs = []
+                frame_obligations(eng, ce, pre_state, s.fork(), [], "", only_objs=set(bo.w.objname.keys()), names={k: "other." + v for k, v in bo.w.objname.items()})
+                viol = z3.Or(*[o.viol for o in eng.obligs]) if eng.obligs else z3.BoolVal(False)
+                ob = lem.add("lemma:%s:other-instance-unchanged" % tag, viol, info={"replay": two_replay,
+                             "detail": [o.name for o in eng.obligs][:10]})
+                if not eng.obligs:
+                    ob.trivial = True
+    lem.stats = dict(eng.stats)
+    return lem
+
+
+TWO_GO = r'''package cpu
+
+import (
+	"encoding/json"
+	"os"
+	"testing"
+
+	"github.com/scottyw/tetromino/gameboy/audio"
+	"github.com/scottyw/tetromino/gameboy/controller"
+	"github.com/scottyw/tetromino/gameboy/interrupts"
+	"github.com/scottyw/tetromino/gameboy/memory"
+	"github.com/scottyw/tetromino/gameboy/oam"
+	"github.com/scottyw/tetromino/gameboy/ppu"
+	"github.com/scottyw/tetromino/gameboy/serial"
+	"github.com/scottyw/tetromino/gameboy/timer"
+)
+
+func vrMachine() (*CPU, *memory.Mapper) {
+	rom := make([]byte, 0x8000)
+	i := interrupts.New()
+	o := oam.New()
+	p := ppu.New(i, o, false)
+	p.WriteLCDC(0x00)
+	m := memory.New(rom, i, o, p, controller.New(), serial.New(nil), timer.New(), audio.New(nil, nil))
+	c := New(i, o, false, m)
+	c.Initialize()
+	i.Disable()
+	return c, m
+}
+
+func TestVerifReplay(t *testing.T) {
+	c1, m1 := vrMachine()
+	c2, m2 := vrMachine()
+	// INC B at C000 in machine 1, NOP in machine 2
+	m1.Write(0xc000, 0x04)
+	m2.Write(0xc000, 0x00)
+	c1.pc, c2.pc = 0xc000, 0xc000
+	c1.b, c2.b = 0x10, 0x20
+	c1.ExecuteMachineCycle()
+	out := map[string]interface{}{"c1.b": c1.b, "c2.b": c2.b, "c1.pc": c1.pc, "c2.pc": c2.pc}
+	b, _ := json.Marshal(out)
+	os.WriteFile(os.Getenv("VERIF_REPLAY_OUT"), b, 0644)
+}
+'''
+
+
+def two_replay(ctx, prop, ob, res):
+    """concrete two-machine run on the real code: stepping machine 1 (INC B) must change machine 1 only"""
+    from engine.replay import run_go_test
+    rc, log, out = run_go_test(ctx, "github.com/scottyw/tetromino/gameboy/cpu", TWO_GO)
+    rep = {"go_rc": rc, "function": "two machines built with the real constructors; (*cpu.CPU).ExecuteMachineCycle on the first",
+           "inputs": {"c1.b": 0x10, "c2.b": 0x20, "c1 program": "INC B", "c2 program": "NOP"}}
+    if out is None:
+        rep.update(status="error", log=log)
+        return rep
+    rep["real"] = out
+    if out["c1.b"] == 0x11 and out["c2.b"] == 0x20 and out["c1.pc"] == 0xc001 and out["c2.pc"] == 0xc000:
+        rep.update(status="unconfirmed", reason="the fixed two-machine scenario behaves independently; the model may need another opcode")
+    else:
+        rep.update(status="confirmed", reason="stepping the first machine changed the second or did not change the first")
+    return rep
